@@ -195,10 +195,12 @@ Rots      == IF Rich THEN {0, 1, 5} ELSE {1}
 SWClasses == IF Rich THEN {"pos", "zero", "nan", "inf"} ELSE {"pos", "zero"}
 Patterns  == { PatternSeq[n] : n \in 1..NPat }
 
-HdfCases ==
+HdfAll ==
     { [auto |-> a, nb |-> b, np |-> p, mem |-> m, pat |-> pt, rot |-> r, sw |-> s] :
         a \in BOOLEAN, b \in 1..MaxBins, p \in 1..MaxPatches, m \in MemberSets,
         pt \in Patterns, r \in Rots, s \in SWClasses }
+(* quick tier: the sum-of-weights classes are crossed with one pattern only *)
+HdfCases == { o \in HdfAll : Rich \/ o.sw = "pos" \/ o.pat = "dense" }
 
 HdfPrior ==
     { [auto |-> FALSE, nb |-> MaxBins, np |-> MaxPatches, mem |-> Members,
